@@ -65,6 +65,23 @@ mutant('r03_sorted_tally', 'C11', 'refactor',
   ('klog/parser/reconciling/style.go', '\tfor _, value := range e.order {\n\t\tcount := e.votes[value]\n', '\tfor i := 0; i < len(e.order); i++ {\n\t\tvalue := e.order[i]\n\t\tcount := e.votes[value]\n'))
 mutant('r04_manual_write', 'C05', 'refactor',
   ('klog/app/file.go', '\terr := os.WriteFile(target.Path(), []byte(contents), 0644)\n', '\tf, err := os.OpenFile(target.Path(), os.O_WRONLY|os.O_CREATE|os.O_TRUNC, 0644)\n\tif err == nil {\n\t\t_, err = f.WriteString(contents)\n\t\tif cErr := f.Close(); err == nil {\n\t\t\terr = cErr\n\t\t}\n\t}\n'))
+mutant('r05_print_via_os_stdout', 'C19', 'refactor',
+  ('klog/app/context.go', 'func (ctx *context) Print(text string) {\n\tfmt.Print(text)\n}', 'func (ctx *context) Print(text string) {\n\t_, _ = os.Stdout.WriteString(text)\n}'),
+  ('klog/app/context.go', '\t"bufio"\n\t"fmt"\n', '\t"bufio"\n'))
+mutant('r06_repeat_with_sleep', 'C04', 'refactor',
+  ('klog/app/cli/util/with_repeat.go', '\tticker := gotime.NewTicker(interval)\n\tdefer ticker.Stop()\n', ''),
+  ('klog/app/cli/util/with_repeat.go', 'for ; true; <-ticker.C {', 'for ; true; gotime.Sleep(interval) {'))
+mutant('r07_read_via_open', 'C05', 'refactor',
+  ('klog/app/file.go', '\tcontents, err := os.ReadFile(source.Path())\n', '\tcontents, err := func() ([]byte, error) {\n\t\tf, oErr := os.Open(source.Path())\n\t\tif oErr != nil {\n\t\t\treturn nil, oErr\n\t\t}\n\t\tdefer f.Close()\n\t\treturn io.ReadAll(f)\n\t}()\n'))
+mutant('r08_pause_no_trailing_blank', 'C04', 'refactor',
+  ('klog/parser/reconciling/pause_open_range.go', '\t\tsummary = summary.Append(appendableTags)\n', '\t\tif appendableTags != "" {\n\t\t\tsummary = summary.Append(appendableTags)\n\t\t}\n'))
+mutant('r09_error_texts_changed', 'C05', 'refactor',
+  ('klog/parser/reconciling/reconciler.go', 'errors.New("This operation wouldn’t result in a valid record")', 'errors.New("The result would not be a valid file")'),
+  ('klog/app/context.go', '"Manipulation failed",\n\t\t\t\terr.Error(),\n\t\t\t\terr,\n\t\t\t)\n\t\t}\n\t}', '"Cannot apply the change",\n\t\t\t\terr.Error(),\n\t\t\t\terr,\n\t\t\t)\n\t\t}\n\t}'))
+mutant('r10_bookmarks_json_compact', 'C19', 'refactor',
+  ('klog/app/bookmark.go', '\tenc.SetIndent("", "  ")\n', ''))
+mutant('r11_list_format_changed', 'C19', 'refactor',
+  ('klog/app/cli/bookmarks.go', 'ctx.Print(b.Name().ValuePretty() + " -> " + b.Target().Path() + "\\n")\n\t}\n\treturn nil\n}\n\ntype BookmarksInfo', 'ctx.Print(b.Name().ValuePretty() + "\\t=> " + b.Target().Path() + "\\n")\n\t}\n\treturn nil\n}\n\ntype BookmarksInfo'))
 import json
 json.dump(M, open(os.path.join(OUT, 'index.json'), 'w'), indent=1)
 print(len(M), 'patches')
